@@ -19,6 +19,7 @@ def run(ctx):
     bundles = c03.gen_bundles(rng, w, thorough)
     ctx.both([f'bundle.write {b}' for b in bundles])
     ctx.both([f'bundle.write.plain {b}' for b in bundles])
+    ctx.both([f'bundle.write.cw {b}' for b in bundles[::2]])
     # CountingWriter accounting (observation point CountingWriter.Written): Write / ReadFrom sequences, three destination kinds
     ctx.both(cw_ops(rng, 150 if not thorough else 3000))
 
